@@ -74,7 +74,8 @@ def genf(seed):
     delmode=0            # remaining calls during which every deletion fails
     def pre(f, isopen=False):
         # step prefix: plain counted fault, or (40% of the faulty steps) the fault modes of
-        # coq/Wal/FaultHist.v: 1 deletions fail, 2 listing fails (Open only), 4 create leaves the file
+        # coq/Wal/FaultHist.v: 1 deletions fail, 2 listing fails (Open only), 4 create leaves the file,
+        # 8 a commit / stable write fails and lands
         nonlocal delmode
         if delmode>0:
             delmode-=1
@@ -82,8 +83,9 @@ def genf(seed):
             cnt = "c8" if (f=="-" or r.random()<0.7) else f
             if cnt!="c8" and r.random()<0.5: fl |= 4
             return "g %s %x"%(cnt,fl)
-        if f!="-" and r.random()<0.4:
-            fl = 4 if r.random()<0.7 else r.choice([1,5])
+        if f!="-" and r.random()<0.5:
+            # 8: a metadata commit / stable write hit by the counted fault fails and lands
+            fl = r.choice([4,4,8,8,8,12,1,5,9])
             return "g %s %x"%(f,fl)
         if isopen and r.random()<0.25: return "g c8 2"
         return "f %s"%f
